@@ -424,6 +424,13 @@ def _mirsym():
         bounds="same sub-partition sets and symbolic names as C15.a/subpartition_key; loaded flags initially alternate false/true; BTreeMap modelled as a sorted association list, AtomicBool as a cell",
         spec=sr.SubpartitionLoadedSpec(), stubs=["BTreeMap<String,usize> -> sorted association list with cursors", "AtomicBool -> cell"])
 
+    from .specs import strflags as ssf
+    add("C01.j/hex_flags", "C01", "mirsym", Q,
+        "is_lowercase_hex / is_uppercase_hex (the per-string test behind StringColBuffer's lhex/uhex flags, which decide whether a string column is hex-packed and in which case it is re-created): true exactly for even-length strings over [0-9a-f] / [0-9A-F]",
+        ["mem_store::column_buffer::is_lowercase_hex", "mem_store::column_buffer::is_uppercase_hex"],
+        bounds="ASCII strings of length 0-4 (quick) / 0-6 (thorough) with 1-3 symbolic bytes (the rest fixed digits of the alphabet); non-ASCII bytes outside the claim (str::chars UTF-8 decoding is not modelled)",
+        spec=ssf.HexFlagSpec(), assumptions=["bytes < 0x80"])
+
 
 _mirsym()
 
